@@ -63,3 +63,15 @@ Proof. apply list_eqb_eq. intros x y. apply N.eqb_eq. Qed.
 
 Lemma ok_inj {E A} (a b : A) : @Ok E A a = Ok b -> a = b.
 Proof. intros H. injection H. auto. Qed.
+
+Lemma some_inj {A} (a b : A) : Some a = Some b -> a = b.
+Proof. intros H. injection H. auto. Qed.
+
+Lemma skipn_skipn' {A} : forall a b (l : list A), skipn b (skipn a l) = skipn (a + b) l.
+Proof.
+  induction a as [|a IH]; intros b l; [reflexivity|].
+  destruct l as [|x l]; [rewrite !skipn_nil; reflexivity|]. cbn [skipn Nat.add]. apply IH.
+Qed.
+
+Lemma drop_drop {A} a b (l : list A) : drop b (drop a l) = drop (a + b) l.
+Proof. unfold drop. rewrite skipn_skipn'. f_equal. lia. Qed.
